@@ -464,6 +464,15 @@ class Interp:
         return {ast.Lt: a < b, ast.LtE: a <= b, ast.Gt: a > b, ast.GtE: a >= b}[t]
 
     def identical(self, l, r):
+        from .calls import TypeOf
+        if isinstance(r, TypeOf):
+            l, r = r, l
+        if isinstance(l, TypeOf):
+            if r is str:
+                return l.v.isname
+            if r is int:
+                return znot(l.v.isname)
+            return False
         if l is None or r is None:
             return l is r
         if isinstance(l, (bool, int, str)) and isinstance(r, (bool, int, str)):
@@ -692,8 +701,14 @@ class FloatDiv:
 
 
 def shift_of(y):
-    """if y is syntactically X * pow2(s) or X * 2^c return s (term) or c (int)"""
+    """if y is syntactically a multiple of 2^s (X * pow2(s), X * 2^c, or a sum of
+    such terms) return s (term) or c (int), else None"""
     if not is_sym(y):
+        return None
+    if z3.is_add(y):
+        ss = [shift_of(ch) for ch in y.children()]
+        if all(isinstance(x, int) for x in ss) and ss:
+            return min(ss)
         return None
     if z3.is_mul(y):
         for ch in y.children():
